@@ -135,8 +135,9 @@ def check(repo, res, tier):
     mk = repo.func('Buffer.mark_observation_finished')
     mfr = Frame(mk)
     rets = [n for n in walk_no_nested(mk.node) if isinstance(n, ast.Return)]
-    okm = bool(rets) and all(isinstance(r.value, ast.Call) and call_name(r.value) == 'remove' and
-                             canon.c(r.value.func.value, mfr) == 'HotBuffer' for r in rets)
+    from ..norm import ProvCanon as _PC
+    _pc = _PC(repo)
+    okm = bool(rets) and all(_pc.p(r.value, mfr) == 'HotBuffer.remove(%s)' % mk.params[1] for r in rets)
     (res.ok if okm else res.bad)(
         'C13.E1', mk, rets[0] if rets else None, 'mark_observation_finished refuses only what HotBuffer.remove refuses',
         'ok' if okm else 'mark_observation_finished has a refusal of its own; the scheduler emits "allocation stopped" before '
